@@ -251,11 +251,22 @@ func genC17(r *R, sc *Scenario, tier string) {
 	if r.P(300) {
 		sc.Clients = append(sc.Clients, Client{Name: "c", Ops: []Op{{AtMs: 3500, Op: Pick(r, "restart", "start"), Arg: ReplicaNames(spec.Procs[0].Name, spec.Procs[0].Replicas)[0]}}}) // after env_cmds (2 s time-out) have been evaluated
 	}
+	sc.RunForMs = 6000
+	if r.P(250) {
+		// a live update / reload in between: what is launched afterwards (the changed process,
+		// and whatever is started again) still gets everything - env_cmds results included
+		up := cloneSpec(spec)
+		q := up.Procs[len(up.Procs)-1]
+		q.Env = append(q.Env, "UPD=1")
+		sc.Updates = []*ProjectSpec{up}
+		first := ReplicaNames(spec.Procs[0].Name, spec.Procs[0].Replicas)[0]
+		sc.Clients = append(sc.Clients, Client{Name: "u", Ops: []Op{{AtMs: 4200, Op: Pick(r, "update", "reload"), N: 0}, {AtMs: 5500, Op: Pick(r, "restart", "start"), Arg: first}}})
+		sc.RunForMs = 8000
+	}
 	sc.Strategy = genStrategy(r)
 	sc.Strategy.StallPermille = 0
 	sc.IterMode = Pick(r, 0, 0, 1, 2, 3)
 	sc.IterRot = r.Intn(7)
-	sc.RunForMs = 6000
 	sc.QuietMs = 500
 	sc.Arm = "env"
 }
